@@ -13,6 +13,7 @@ type StepResult struct {
 	Key        string   // canonical state after the last event
 	Obs        string   // observation vector of the last event (for vacuity statistics)
 	Violations []string // non empty: the history violates an oracle (it is not extended)
+	Reports    []string // violations that are reported but do not stop the exploration of this history
 	Predicted  bool     // the reference model predicted a non-empty change for the last event
 }
 
@@ -59,6 +60,11 @@ func (e *Explorer) Explore() {
 	for si, s := range starts {
 		// every shard executes the start states (cheap); only shard 0 counts them
 		r := e.Run(s)
+		if len(r.Reports) > 0 && e.Shard == 0 && e.OnViolation != nil {
+			rr := r
+			rr.Violations = r.Reports
+			e.OnViolation(s, rr)
+		}
 		if len(r.Violations) > 0 {
 			if e.Shard == 0 && e.OnViolation != nil {
 				e.OnViolation(s, r)
@@ -105,6 +111,11 @@ func (e *Explorer) Explore() {
 				e.Predicted++
 			}
 			e.ObsDistinct[hash(r.Obs)] = struct{}{}
+			if len(r.Reports) > 0 && e.OnViolation != nil {
+				rr := r
+				rr.Violations = r.Reports
+				e.OnViolation(h, rr)
+			}
 			if len(r.Violations) > 0 {
 				if e.OnViolation != nil {
 					e.OnViolation(h, r)
